@@ -46,8 +46,18 @@ def summaries(F, name, b, L):
                             start = aff_sym("out1@bb%d" % ns[0][0])   # index right after next_signature
                             pos = aff_sym("call@bb%d" % bb)
                             out.append((("after", bb), aff_add(aff_add(ln, start, -1), pos, -1), "Cursor::position() <= length of the slice it reads", okc, dc))
-    if name.endswith("idat_parse::recreate_idat"):
-        pass
+    # (c) std contract of the count-returning transfers: `n = w.write(buf)?` / `n = r.read(buf)?` gives n <= buf.len()
+    for bb, t in b.calls():
+        c = t["callee"]
+        if c.get("trait") in ("std::io::Write", "std::io::Read") and c.get("def", "").split("::")[-1] in ("write", "read") and len(t["args"]) == 2 and t.get("t") is not None:
+            nb = t["t"]
+            nt = b.term(nb)
+            if nt["k"] == "call" and strip_generics(callee_def(nt)).endswith("Try::branch"):
+                src = op_place(nt["args"][0])
+                if src is not None and src["l"] == t["dest"]["l"]:
+                    ln = L.len_sym(t["args"][1], bb)
+                    n = aff_sym("call@bb%d.0" % nb)
+                    out.append((("after", nb), aff_add(ln, n, -1), "std::io contract: the count returned by %s is at most the buffer length" % c["def"].split("::")[-1], True, "trusted std contract"))
     return out
 
 
